@@ -114,6 +114,43 @@ theorem C05_idem_checksum {i : Nat} {t : Task} (ht : pr.tasks[i]? = some t) (hm 
   rw [if_pos hup]
   exact ⟨rfl, rfl⟩
 
+/-- state after the up-to-date check of a `--force` run that exits `ok` (F8F: the sources checker runs
+for what it records; the body does not touch the stores) -/
+theorem force_ok_stores {i : Nat} {t : Task} (ht : pr.tasks[i]? = some t) (e : Env) (hg : e.gset = true) (s : State)
+    (hok : (invoke cfg H pr i .force e s).2.exit = .ok) :
+    (invoke cfg H pr i .force e s).1.sums = (isUpToDate H pr t false e.now s).1.sums ∧
+    (invoke cfg H pr i .force e s).1.marks = (isUpToDate H pr t false e.now s).1.marks := by
+  have hfs : forceStart H pr t e s = (isUpToDate H pr t false e.now s).1 := by
+    simp [forceStart, checkErr_gset t e s.files hg]
+  rw [invoke_force cfg H pr ht, hfs] at hok ⊢
+  have := runBody_ok cfg H pr i t e _ hok
+  exact ⟨this.1, this.2.1⟩
+
+/-- **Idempotence after `--force`, method checksum** (F8F): a forced run that exited `ok` has recorded
+the fingerprint like any other run: if the commands left the source stream as it was, the generates
+exist and the status (if any) holds, the next run WITHOUT `--force` executes no command. -/
+theorem C05_idem_checksum_after_force {i : Nat} {t : Task} (ht : pr.tasks[i]? = some t) (hm : t.method = .checksum)
+    (hsrc : t.sources.isEmpty = false) (e1 e2 : Env) (hg1 : e1.gset = true) (hc2 : Plain e2) (s0 : State)
+    (hok : (invoke cfg H pr i .force e1 s0).2.exit = .ok)
+    (hfp : fpNow H pr t (invoke cfg H pr i .force e1 s0).1.files = fpNow H pr t s0.files)
+    (hgen : gensOk t (invoke cfg H pr i .force e1 s0).1.files = true)
+    (hst : t.status.isEmpty = true ∨ statusOk t (invoke cfg H pr i .force e1 s0).1.files = true) :
+    (invoke cfg H pr i .run e2 (invoke cfg H pr i .force e1 s0).1).2.ran = [] ∧
+    (invoke cfg H pr i .run e2 (invoke cfg H pr i .force e1 s0).1).2.skipped = true := by
+  have hst1 := (force_ok_stores cfg H pr ht e1 hg1 s0 hok).1
+  rw [isUpToDate_sources H pr hsrc] at hst1
+  simp only [srcCheck, hm] at hst1
+  have hstored := sumCheck_stored H pr t s0
+  rw [← hst1, ← hfp] at hstored
+  generalize (invoke cfg H pr i .force e1 s0).1 = s1 at *
+  rw [invoke_run_plain cfg H pr ht e2 hc2]
+  have hup : (isUpToDate H pr t false e2.now s1).2 = true := by
+    rw [isUpToDate_sources H pr hsrc]
+    simp only [srcCheck, hm, sumCheck_result, hgen, hstored]
+    rcases hst with h | h <;> simp [h]
+  rw [if_pos hup]
+  exact ⟨rfl, rfl⟩
+
 /-- **Idempotence, method timestamp**, under the side conditions that no source is newer than the
 first run (mtime ≤ its clock), that the generates exist afterwards (TS1: a missing one forces a
 rerun) and that the `status:` commands (if any) did not fail BEFORE the first run — so that, if the
@@ -211,7 +248,7 @@ theorem C05_force {i : Nat} {t : Task} (ht : pr.tasks[i]? = some t) (e : Env) (s
     (invoke cfg H pr i .force e s).2.ran = List.range' 0 t.cmds.length ∧
     (invoke cfg H pr i .force e s).2.skipped = false := by
   rw [invoke_force cfg H pr ht]
-  exact ⟨(runBody_calm cfg H pr i t e s hc).1, (runBody_calm cfg H pr i t e s hc).2.2⟩
+  exact ⟨(runBody_calm cfg H pr i t e _ hc).1, (runBody_calm cfg H pr i t e _ hc).2.2⟩
 
 /-- a `run` that is not up to date enters the body: not skipped, and (if calm) every command runs -/
 theorem run_not_upToDate {i : Nat} {t : Task} (ht : pr.tasks[i]? = some t) (e : Env) (s : State)
@@ -930,6 +967,17 @@ theorem C05_unmatched_field_fixed :
     let s1 := (invoke Cfg.fixed hId prMv 0 .run (env 10) sMv).1
     srcsNow tMv sMv.files = [0] ∧ (invoke Cfg.fixed hId prMv 0 .run (env 20) s1).2.skipped = true ∧
     (invoke Cfg.fixed hId prMv 0 .run (env 20) (applyOp prMv (.write 0 [8] 15) s1)).2.ran = [0] := by decide
+
+/-- the former witness of D-C05-force, now idempotent (both methods): `--force`, then a plain run —
+skipped; **HISTORICAL** (`runBody` started from the state before the check — the tree before F8F): from
+THAT state the plain run executes the command again -/
+theorem C05_force_then_run_fixed :
+    let r1 := invoke Cfg.fixed hId prMv 0 .force (env 10) sMv
+    r1.2.exit = .ok ∧ r1.2.ran = [0] ∧ (invoke Cfg.fixed hId prMv 0 .run (env 20) r1.1).2.skipped = true ∧
+    (let rt := invoke Cfg.fixed hId prTs 0 .force (env 10) sMv
+     rt.2.ran = [0] ∧ (invoke Cfg.fixed hId prTs 0 .run (env 20) rt.1).2.skipped = true) ∧
+    (invoke Cfg.fixed hId prMv 0 .run (env 20) (runBody Cfg.fixed hId prMv 0 tMv false (env 10) sMv).1).2.ran = [0] := by
+  decide
 
 /-! ## non-vacuity of the idempotence and forcing theorems -/
 
